@@ -309,3 +309,286 @@ Lemma cap_ok_aset sid v' sv :
 Proof.
   intros H H1 H2 k v G. apply aget_aset_cases in G as [[-> ->]|[_ G]]; eauto.
 Qed.
+
+Ltac inv_facts I :=
+  pose proof (inv_pj _ I) as Hpj; pose proof (inv_ps _ I) as Hps;
+  pose proof (inv_jobs_sorted _ I) as Hjs; pose proof (inv_srv_sorted _ I) as Hss;
+  pose proof (inv_sets _ I) as Hsets; pose proof (inv_attr _ I) as Hattr;
+  pose proof (inv_disj _ I) as Hdisj; pose proof (inv_fresh_srv _ I) as Hfs;
+  pose proof (inv_fresh_jobs _ I) as Hfj; pose proof (inv_fl _ I) as Hfl;
+  pose proof (inv_cap _ I) as Hcap.
+
+(* ---- heartbeat ---- *)
+
+Lemma heartbeat_Inv sid n c s : Inv s -> Inv (fst (heartbeat sid n c s)).
+Proof.
+  intros I. inv_facts I. unfold heartbeat. destruct (c =? 0) eqn:C; [exact I|].
+  apply N.eqb_neq in C. unfold lock_both. rewrite Hpj, Hps.
+  destruct (aget sid (servers s)) as [sv|] eqn:G.
+  - destruct (sv_nonce sv =? n); [exact I|]. apply mkInv; simpl; auto.
+    + apply ksorted_drop; auto.
+    + apply ksorted_aset; auto.
+    + apply sets_sorted_aset; simpl; auto; constructor.
+    + intros j k stt Gj. rewrite aget_drop in Gj.
+      destruct (smem j (sv_assigned sv)) eqn:M; [discriminate|].
+      destruct (Hattr j k stt Gj) as [v [Gv Iv]].
+      rewrite aget_aset. destruct (k =? sid) eqn:E; [|eauto].
+      apply N.eqb_eq in E; subst. rewrite G in Gv. inversion Gv; subst.
+      apply smem_false in M. tauto.
+    + apply disj_aset; auto. simpl. tauto.
+    + apply fresh_srv_aset; auto. simpl. tauto.
+    + intros j x Gj. rewrite aget_drop in Gj. destruct (smem j _); [discriminate|]. eauto.
+    + intros j k Gj. destruct (Hfl j k Gj) as [L Nn]. split; auto.
+      rewrite aget_drop, Nn. destruct (smem _ _); reflexivity.
+    + apply cap_ok_aset; auto; simpl; unfold len; simpl; lia.
+  - apply mkInv; simpl; auto.
+    + apply ksorted_aset; auto.
+    + apply sets_sorted_aset; simpl; auto; constructor.
+    + apply attr_aset; auto. intros j stt Gj. destruct (Hattr _ _ _ Gj) as [v [Gv _]]. congruence.
+    + apply disj_aset; auto. simpl. tauto.
+    + apply fresh_srv_aset; auto. simpl. tauto.
+    + apply cap_ok_aset; auto; simpl; unfold len; simpl; lia.
+Qed.
+
+(* ---- the choice of the server ---- *)
+
+Definition sel_good (L : list (N * server)) (a : sel) : Prop :=
+  (forall kv, sel_best a = Some kv ->
+     In kv L /\ len (sv_assigned (snd kv)) < slack (sv_cpus (snd kv))) /\
+  (forall kv e, sel_err a = Some (kv, e) ->
+     In kv L /\ len (sv_assigned (snd kv)) < slack (sv_cpus (snd kv))).
+
+Lemma load_lt_slack n c bn bd : load_lt (load_weight n c) bn bd = true -> n < slack c.
+Proof.
+  unfold load_weight. destruct (slack c <=? n) eqn:E; simpl; [discriminate|]. intros _. lia.
+Qed.
+
+Lemma sel_step_good L a kv : sel_good L a -> In kv L -> sel_good L (sel_step a kv).
+Proof.
+  intros [Hb He] Hin. unfold sel_step. destruct (sel_stop a); [split; auto|].
+  destruct (sv_last_error (snd kv)) as [e|].
+  - destruct (load_lt _ max_per_core_load 1) eqn:LL; [|split; auto].
+    apply load_lt_slack in LL.
+    destruct (sel_err a) as [[kv0 be]|] eqn:SE.
+    + destruct (e <? be); [|split; auto].
+      split; simpl; auto. intros kv1 e1 H; inversion H; subst; auto.
+    + split; simpl; auto. intros kv1 e1 H; inversion H; subst; auto.
+  - destruct (load_lt _ (sel_bn a) (sel_bd a)) eqn:LL; [|split; auto].
+    apply load_lt_slack in LL.
+    split; simpl; auto. intros kv1 H; inversion H; subst; auto.
+Qed.
+
+Lemma fold_sel_good L l : forall a, sel_good L a -> incl l L -> sel_good L (fold_left sel_step l a).
+Proof.
+  induction l as [|kv r IH]; simpl; intros a Ha Hi; [exact Ha|].
+  apply IH.
+  - apply sel_step_good; auto. apply Hi. left; reflexivity.
+  - intros x Hx. apply Hi. right; exact Hx.
+Qed.
+
+Lemma choose_good l kv :
+  choose l = Some kv -> In kv l /\ len (sv_assigned (snd kv)) < slack (sv_cpus (snd kv)).
+Proof.
+  unfold choose. intro H.
+  assert (G : sel_good l (fold_left sel_step l sel_init)).
+  { apply fold_sel_good; [|apply incl_refl]. split; simpl; intros; discriminate. }
+  destruct G as [Gb Ge].
+  destruct (sel_best (fold_left sel_step l sel_init)) as [kv0|] eqn:B.
+  - inversion H; subst. apply Gb; reflexivity.
+  - destruct (sel_err (fold_left sel_step l sel_init)) as [[kv0 e]|] eqn:E; [|discriminate].
+    inversion H; subst. eapply Ge; reflexivity.
+Qed.
+
+Lemma take_pref_In ord srv k v : forall seen, In (k, v) (take_pref ord seen srv) -> aget k srv = Some v.
+Proof.
+  induction ord as [|x r IH]; simpl; intros seen H; [tauto|].
+  destruct (smem x seen); [eauto|].
+  destruct (aget x srv) as [vx|] eqn:G; [|eauto].
+  destruct H as [H|H]; [inversion H; subst; exact G | eauto].
+Qed.
+
+Lemma iter_order_In ord srv k v : ksorted srv -> In (k, v) (iter_order ord srv) -> aget k srv = Some v.
+Proof.
+  intros Hs H. unfold iter_order in H. apply in_app_or in H as [H|H].
+  - eapply take_pref_In; eauto.
+  - apply filter_In in H as [H _]. apply In_aget; auto.
+Qed.
+
+(* ---- alloc_begin ---- *)
+
+Lemma alloc_begin_Inv ord s : Inv s -> Inv (fst (alloc_begin ord s)).
+Proof.
+  intros I. inv_facts I. unfold alloc_begin. rewrite Hps.
+  destruct (choose _) as [[sid sv]|] eqn:CH; [|exact I].
+  apply choose_good in CH as [Hin Hlt]. simpl in Hlt. apply iter_order_In in Hin; auto.
+  assert (Hnj : ~ In (job_count s) (sv_assigned sv)).
+  { intro X. specialize (Hfs sid sv _ Hin (or_introl X)). lia. }
+  assert (Hnu : ~ In (job_count s) (sv_unclaimed sv)).
+  { intro X. specialize (Hfs sid sv _ Hin (or_intror X)). lia. }
+  rewrite (proj2 (smem_false _ _) Hnj). simpl. rewrite (proj2 (smem_false _ _) Hnu). simpl.
+  destruct (Hsets _ _ Hin) as [Sa Su]. destruct (Hcap _ _ Hin) as [C1 C2].
+  apply mkInv; simpl; auto.
+  - apply ksorted_aset; auto.
+  - apply sets_sorted_aset; simpl; auto; apply ssorted_sins; auto.
+  - apply attr_aset; auto. intros j stt Gj. destruct (Hattr j sid stt Gj) as [v [Gv Iv]].
+    rewrite Hin in Gv; inversion Gv; subst. simpl. apply In_sins; auto.
+  - apply disj_aset; auto. simpl. intros j Ij. apply In_sins in Ij as [->|Ij].
+    + right. intros s2 v2 G2 I2. specialize (Hfs s2 v2 _ G2 (or_introl I2)). lia.
+    + left; eauto.
+  - apply fresh_srv_aset; [eapply fresh_srv_mono; eauto; lia|]. simpl.
+    intros j [Ij|Ij]; apply In_sins in Ij as [->|Ij]; try lia.
+    + specialize (Hfs sid sv j Hin (or_introl Ij)). lia.
+    + specialize (Hfs sid sv j Hin (or_intror Ij)). lia.
+  - intros j x Gj. specialize (Hfj j x Gj). lia.
+  - intros j k Gj. rewrite aget_aset in Gj. destruct (j =? job_count s) eqn:E.
+    + apply N.eqb_eq in E; subst. split; [lia|].
+      destruct (aget (job_count s) (jobs s)) eqn:X; auto. specialize (Hfj _ _ X). lia.
+    + destruct (Hfl j k Gj). split; [lia | auto].
+  - apply cap_ok_aset; auto. simpl. unfold len in *. rewrite length_sins; auto. lia.
+Qed.
+
+(* ---- alloc_end_fail / alloc_end_ok ---- *)
+
+Lemma leave_window_Inv j s : Inv s -> Inv (set_inflight s (adel j (inflight s))).
+Proof.
+  intros I. inv_facts I. apply mkInv; simpl; auto.
+  intros j' k Gj. rewrite aget_adel in Gj. destruct (j' =? j); [discriminate|]. eauto.
+Qed.
+
+Lemma alloc_end_fail_Inv j s : Inv s -> Inv (fst (alloc_end_fail j s)).
+Proof.
+  intros I. unfold alloc_end_fail. destruct (aget j (inflight s)) as [sid|] eqn:F; [|exact I].
+  destruct (inv_fl _ I _ _ F) as [_ Nj].
+  pose proof (leave_window_Inv j s I) as I0. inv_facts I. rewrite Hps.
+  destruct (aget sid (servers s)) as [sv|] eqn:G; [|exact I0].
+  clear I0. destruct (Hsets _ _ G) as [Sa Su]. destruct (Hcap _ _ G) as [C1 C2].
+  apply mkInv; simpl; auto.
+  - apply ksorted_aset; auto.
+  - apply sets_sorted_aset; simpl; auto; apply ssorted_srem; auto.
+  - apply attr_aset; auto. intros j' stt Gj. destruct (Hattr _ _ _ Gj) as [v [Gv Iv]].
+    rewrite G in Gv; inversion Gv; subst v. simpl. apply In_srem. split; auto.
+    intro; subst j'. congruence.
+  - apply disj_aset; auto. simpl. intros j' Ij. apply In_srem in Ij as [Ij _]. left; eauto.
+  - apply fresh_srv_aset; auto. simpl.
+    intros j' [Ij|Ij]; apply In_srem in Ij as [Ij _]; eapply Hfs; eauto.
+  - intros j' k Gj. rewrite aget_adel in Gj. destruct (j' =? j); [discriminate|]. eauto.
+  - apply cap_ok_aset; auto. simpl.
+    eapply N.le_trans; [apply len_le, length_srem_le | exact C2].
+Qed.
+
+Lemma alloc_end_ok_Inv j stt s : Inv s -> Inv (fst (alloc_end_ok true j stt s)).
+Proof.
+  intros I. unfold alloc_end_ok. destruct (aget j (inflight s)) as [sid|] eqn:F; [|exact I].
+  destruct (inv_fl _ I _ _ F) as [Lj Nj].
+  pose proof (leave_window_Inv j s I) as I0. inv_facts I. rewrite Hpj, Hps.
+  destruct (aget sid (servers s)) as [sv|] eqn:G; [|exact I0].
+  destruct (smem j (sv_assigned sv)) eqn:M; [|exact I0].
+  clear I0. unfold record_job. simpl. rewrite (proj2 (amem_false _ _) Nj). simpl.
+  apply mkInv; simpl; auto.
+  - apply ksorted_aset; auto.
+  - intros j' k stt' Gj. rewrite aget_aset in Gj. destruct (j' =? j) eqn:E; [|eauto].
+    apply N.eqb_eq in E; subst. inversion Gj; subst. exists sv; split; auto. apply smem_In; auto.
+  - intros j' x Gj. rewrite aget_aset in Gj. destruct (j' =? j) eqn:E; [|eauto].
+    apply N.eqb_eq in E; subst. exact Lj.
+  - intros j' k Gj. rewrite aget_adel in Gj. destruct (j' =? j) eqn:E; [discriminate|].
+    destruct (Hfl _ _ Gj). split; auto. rewrite aget_aset, E. auto.
+Qed.
+
+(* ---- update_job_state ---- *)
+
+Lemma set_state_Inv j sid cur stt s :
+  Inv s -> aget j (jobs s) = Some (sid, cur) -> Inv (set_jobs s (aset j (sid, stt) (jobs s))).
+Proof.
+  intros I G. inv_facts I. apply mkInv; simpl; auto.
+  - apply ksorted_aset; auto.
+  - intros j' k stt' Gj. rewrite aget_aset in Gj. destruct (j' =? j) eqn:E; [|eauto].
+    apply N.eqb_eq in E; subst. inversion Gj; subst. eauto.
+  - intros j' x Gj. rewrite aget_aset in Gj. destruct (j' =? j) eqn:E; [|eauto].
+    apply N.eqb_eq in E; subst. eauto.
+  - intros j' k Gj. destruct (Hfl _ _ Gj) as [L Nn]. split; auto.
+    rewrite aget_aset. destruct (j' =? j) eqn:E; auto.
+    apply N.eqb_eq in E; subst. congruence.
+Qed.
+
+Lemma claim_Inv j sid sv s :
+  Inv s -> aget sid (servers s) = Some sv ->
+  Inv (set_servers s (aset sid (sv_set_unclaimed sv (srem j (sv_unclaimed sv))) (servers s))).
+Proof.
+  intros I G. inv_facts I. destruct (Hsets _ _ G) as [Sa Su]. destruct (Hcap _ _ G) as [C1 C2].
+  apply mkInv; simpl; auto.
+  - apply ksorted_aset; auto.
+  - apply sets_sorted_aset; simpl; auto. apply ssorted_srem; auto.
+  - apply attr_aset; auto. intros j' stt Gj. destruct (Hattr _ _ _ Gj) as [v [Gv Iv]].
+    rewrite G in Gv; inversion Gv; subst v. exact Iv.
+  - apply disj_aset; auto. simpl. intros j' Ij. left; eauto.
+  - apply fresh_srv_aset; auto. simpl.
+    intros j' [Ij|Ij]; [|apply In_srem in Ij as [Ij _]]; eapply Hfs; eauto.
+  - apply cap_ok_aset; auto.
+Qed.
+
+Lemma complete_Inv j sid cur sv s :
+  Inv s -> aget j (jobs s) = Some (sid, cur) -> aget sid (servers s) = Some sv ->
+  Inv (set_servers (set_jobs s (adel j (jobs s)))
+         (aset sid (sv_set_assigned sv (srem j (sv_assigned sv))) (servers s))).
+Proof.
+  intros I Gj0 G. inv_facts I. destruct (Hsets _ _ G) as [Sa Su]. destruct (Hcap _ _ G) as [C1 C2].
+  apply mkInv; simpl; auto.
+  - apply ksorted_adel; auto.
+  - apply ksorted_aset; auto.
+  - apply sets_sorted_aset; simpl; auto. apply ssorted_srem; auto.
+  - intros j' k stt' Gj. rewrite aget_adel in Gj. destruct (j' =? j) eqn:E; [discriminate|].
+    destruct (Hattr _ _ _ Gj) as [v [Gv Iv]]. rewrite aget_aset.
+    destruct (k =? sid) eqn:E2; [|eauto].
+    apply N.eqb_eq in E2; subst. rewrite G in Gv; inversion Gv; subst.
+    eexists; split; eauto. simpl. apply In_srem; split; auto. apply N.eqb_neq in E; auto.
+  - apply disj_aset; auto. simpl. intros j' Ij. apply In_srem in Ij as [Ij _]. left; eauto.
+  - apply fresh_srv_aset; auto. simpl.
+    intros j' [Ij|Ij]; [apply In_srem in Ij as [Ij _]|]; eapply Hfs; eauto.
+  - intros j' x Gj. rewrite aget_adel in Gj. destruct (j' =? j); [discriminate|]. eauto.
+  - intros j' k Gj. destruct (Hfl _ _ Gj) as [L Nn]. split; auto.
+    rewrite aget_adel, Nn. destruct (j' =? j); reflexivity.
+  - apply cap_ok_aset; auto. simpl.
+    eapply N.le_trans; [apply len_le, length_srem_le | exact C2].
+Qed.
+
+Lemma update_Inv j sid stt s : Inv s -> Inv (fst (update true j sid stt s)).
+Proof.
+  intros I. pose proof (inv_pj _ I) as Hpj. pose proof (inv_ps _ I) as Hps.
+  unfold update, lock_both. rewrite Hpj, Hps.
+  destruct (aget j (jobs s)) as [[owner cur]|] eqn:G; [|exact I].
+  destruct (owner =? sid) eqn:O; simpl; [|exact I]. apply N.eqb_eq in O; subst owner.
+  destruct (trans_ok cur stt); simpl; [|exact I].
+  destruct (inv_attr _ I _ _ _ G) as [sv [Gs Is]].
+  destruct stt; simpl.
+  - eapply set_state_Inv; eauto.
+  - eapply set_state_Inv; eauto.
+  - rewrite Gs. simpl.
+    apply (claim_Inv j sid sv (set_jobs s (aset j (sid, Started) (jobs s)))); [|exact Gs].
+    eapply set_state_Inv; eauto.
+  - rewrite Gs. rewrite (proj2 (smem_In _ _) Is). simpl. eapply complete_Inv; eauto.
+Qed.
+
+Lemma status_same s : Inv s -> fst (status s) = s.
+Proof.
+  intro I. unfold status, lock_both. rewrite (inv_pj _ I), (inv_ps _ I). reflexivity.
+Qed.
+
+Theorem step_Inv s m : Inv s -> Inv (fst (step true s m)).
+Proof.
+  intro I. destruct m; simpl.
+  - apply heartbeat_Inv; auto.
+  - apply alloc_begin_Inv; auto.
+  - apply alloc_end_ok_Inv; auto.
+  - apply alloc_end_fail_Inv; auto.
+  - apply update_Inv; auto.
+  - rewrite status_same; auto.
+Qed.
+
+Theorem run_Inv ms : forall s, Inv s -> Inv (run true s ms).
+Proof.
+  unfold run. induction ms as [|m r IH]; simpl; intros s I; [exact I|].
+  apply IH. apply step_Inv. exact I.
+Qed.
+
+Corollary reachable_Inv ms : Inv (run true init ms).
+Proof. apply run_Inv, Inv_init. Qed.
